@@ -42,8 +42,6 @@ SCENARIOS = [
 
 CLS_BASE    = 'request stream'
 CLS_ENV     = 'python payload changes os.environ (dispatcher rebinds os.environ instead of restoring it)'
-CLS_SYSEXIT = 'payload leaves via SystemExit'
-CLS_LATE    = 'timeout race (child result and timeout result both put)'
 CLS_SCHED   = 'scheduler hand-off'
 
 
@@ -76,19 +74,24 @@ def mc_files(reqs, devs=(), invariants=None):
 
 
 # ------------------------------------------------------------------------------
+MICRO = ('CRun', 'CLock', 'CPut', 'CSet', 'PJoin', 'PLock', 'PCheck', 'PKill', 'PPut2')
 _ACT = re.compile(r'^\\\* <(\w+)(?:\((.*)\))? line \d+', re.M)
 
 
 def scripts_from_behaviour(path):
     '''(worker script, scheduler script) of one TLC behaviour'''
     txt = open(path).read()
-    ws, ss, nin = [], [], {}
+    ws, ss, nin, steps = [], [], {}, {}
     for m in _ACT.finditer(txt):
         name, args = m.group(1), m.group(2) or ''
         ids  = re.findall(r'"(\w+)"', args)
         if   name == 'Dispatch' : ws.append(('dispatch', ids[0]))
         elif name == 'Take'     : ws.append(('take', ids[0]))
-        elif name == 'Finish'   : ws.append(('finish', ids[0], ids[1]))
+        elif name == 'Finish'   : ws.append(('finish', ids[0], 'nat'))
+        elif name == 'PStart'   :
+            steps[ids[0]] = []
+            ws.append(('finish', ids[0], steps[ids[0]]))
+        elif name in MICRO      : steps[ids[0]].append(name[0])
         elif name == 'Deliver'  : ws.append(('deliver', ids[0], int(re.findall(r',\s*(\d+)', args)[0])))
         elif name == 'Result'   : ws.append(('result', ids[0]))
         elif name == 'LocalDone': ws.append(('localdone', ids[0], ids[1]))
@@ -97,6 +100,8 @@ def scripts_from_behaviour(path):
             ss.append(('arrive', [ids[0] if nin[ids[0]] == 1 else ids[0] + 'S']))
         elif name == 'Register'  : ss.append(('register', R.MASTER_UID))
         elif name == 'Unregister': ss.append(('unregister', R.MASTER_UID))
+    ws = [(o[0], o[1], 'P' + ''.join(o[2])) if o[0] == 'finish' and isinstance(o[2], list) else o
+          for o in ws]
     return ws, ss
 
 
@@ -133,17 +138,11 @@ def random_reqs(rng, n, family):
         elif mode in R.PROC_MODES:
             kind = rng.choice(R.PROC_KINDS)
         else:
-            kind = rng.choice([k for k in R.KINDS if R.kind_ok(k, mode) and k != 'sysexit'])
+            kind = rng.choice([k for k in R.KINDS if R.kind_ok(k, mode)])
         reqs['r%d' % (i + 1)] = Q(rng.randint(1, NCORES), rng.randint(0, NGPUS), mode, kind,
-                                  tmo=rng.random() < (0.7 if family == 'late' else 0.3),
+                                  tmo=rng.random() < 0.4,
                                   sf=rng.random() < 0.15,
                                   via=rng.choice(['attr', 'attr', 'pytask']))
-    if family == 'sysexit':
-        u = rng.choice(sorted(reqs))
-        m = rng.choice(R.PY_MODES)
-        reqs[u] = Q(reqs[u]['c'], reqs[u]['g'], m, 'sysexit', tmo=reqs[u]['tmo'])
-    if family == 'late' and not any(r['tmo'] and r['mode'] != 'exe' for r in reqs.values()):
-        reqs['r1'] = Q(reqs['r1']['c'], reqs['r1']['g'], 'func', 'ret', tmo=True)
     return reqs
 
 
@@ -156,11 +155,11 @@ def random_sched(rng):
     return info
 
 
-def catalogue(sysexit):
+def catalogue():
     out = []
     for m in R.PY_MODES + R.PROC_MODES:
         for k in R.KINDS:
-            if R.kind_ok(k, m) and (k == 'sysexit') == sysexit:
+            if R.kind_ok(k, m):
                 out.append((m, k))
                 if m == 'func':
                     out.append((m, k, 'pytask'))
@@ -173,8 +172,6 @@ def classify(inp, clause):
         return CLS_ENV
     fam = inp['family']
     if fam == 'sched'  : return CLS_SCHED
-    if fam == 'sysexit': return CLS_SYSEXIT
-    if fam == 'late'   : return CLS_LATE
     return CLS_BASE
 
 
@@ -184,8 +181,7 @@ def run_input(inp):
         return R.RaptorRig(inp['reqs'], script=[tuple(o) for o in inp['script']],
                            ncores=NCORES, ngpus=NGPUS).run()
     if k == 'random':
-        return R.RaptorRig(inp['reqs'], seed=inp['seed'], late=inp['family'] == 'late',
-                           ncores=NCORES, ngpus=NGPUS).run()
+        return R.RaptorRig(inp['reqs'], seed=inp['seed'], ncores=NCORES, ngpus=NGPUS).run()
     if k == 'chain':
         return R.ChainRig([tuple(c) for c in inp['calls']]).run()
     if k == 'sched-script':
